@@ -259,7 +259,7 @@ Proof. now destruct x. Qed.
 Lemma is_sep_lit_eq x : is_sep_lit x = true -> x = SLit [sep].
 Proof. destruct x; try easy. cbn. intros H. apply str_eqb_eq in H. now subst. Qed.
 Lemma is_empty_lit_eq x : is_empty_lit x = true -> x = SLit [].
-Proof. destruct x as [| |s| | | | |]; try easy. now destruct s. Qed.
+Proof. destruct x as [| |s| | | | | |]; try easy. now destruct s. Qed.
 
 Lemma abs_like_segs e x : abs_like x = true -> segs (seval e x) = segs (e_abs e).
 Proof.
@@ -276,7 +276,7 @@ Qed.
 Lemma root_sep_like_sem e y : is_abs (e_root e) = true -> root_sep_like y = true ->
   ends_sep (seval e y) = true /\ segs (seval e y) = segs (e_root e).
 Proof.
-  intros Hr. destruct y as [| | |r s| |r s| |c a b]; try easy; cbn [root_sep_like]; intros H.
+  intros Hr. destruct y as [| | |r s| |r s| |c a b|]; try easy; cbn [root_sep_like]; intros H.
   - apply andb_true_iff in H as [H1 H2]. apply is_sep_lit_eq in H2. subst. cbn [seval].
     split; [apply ends_sep_snoc|]. rewrite segs_snoc_sep. now apply root_like_segs.
   - apply andb_true_iff in H as [H1 H2]. apply is_SRoot_eq in H1. apply is_empty_lit_eq in H2. subst.
@@ -286,7 +286,7 @@ Proof.
     + rewrite app_nil_r. now split.
     + split; [apply ends_sep_snoc | apply segs_snoc_sep].
   - apply andb_true_iff in H as [H12 H3]. apply andb_true_iff in H12 as [H1 H2].
-    apply is_SRoot_eq in H1, H2. subst. destruct b as [| | |r s| | | |]; try easy.
+    apply is_SRoot_eq in H1, H2. subst. destruct b as [| | |r s| | | | |]; try easy.
     apply andb_true_iff in H3 as [H3 H4]. apply is_SRoot_eq in H3. apply is_sep_lit_eq in H4. subst.
     cbn [seval]. destruct (ends_sep (e_root e)) eqn:Ee.
     + now split.
@@ -299,7 +299,7 @@ Proof. intros ->. exists []. now rewrite app_nil_r. Qed.
 Lemma is_common_abs_root_sem e x : is_common_abs_root x = true ->
   seg_prefix (segs (seval e x)) (segs (e_abs e)).
 Proof.
-  destruct x as [| | | | | |a b|]; try easy. cbn [is_common_abs_root]. intros H.
+  destruct x as [| | | | | |a b| |]; try easy. cbn [is_common_abs_root]. intros H.
   cbn [seval]. rewrite segs_commonpath2.
   apply orb_true_iff in H as [H|H]; apply andb_true_iff in H as [H1 H2].
   - apply is_SAbs_eq in H1. subst. cbn [seval]. apply lcp_prefix_l.
@@ -409,6 +409,9 @@ Definition guard_commonpath : gx := GAnd GConstrain (GNot (GEq (SCommon SAbs SRo
 Definition guard_join_empty : gx :=
   GAnd GConstrain (GNot (GStarts (SCat SAbs sepl) (SJoin SRoot (SLit [])))).
 
+(** [self.constrain_path and os.path.commonprefix([abs_path, self.path]) != self.path] — character-wise, unsound *)
+Definition guard_commonprefix : gx := GAnd GConstrain (GNot (GEq (SCommonPrefix SAbs SRoot) SRoot)).
+
 Lemma sound_forms_recognised :
   raise_sound guard_rstrip_sep = true /\ raise_sound guard_eq_or_sep = true /\
   raise_sound guard_commonpath = true /\ raise_sound guard_join_empty = true /\
@@ -421,6 +424,20 @@ Theorem strprefix_guard_refuted :
     is_abs cwd = true /\ resolve guard_strprefix true cwd root_arg path = Ok a /\
     ~ seg_prefix (segs (abspath cwd root_arg)) (segs a).
 Proof.
+  exists (s2l "/w"), (s2l "/t/root"), (s2l "../root_evil/secret.txt"), (s2l "/t/root_evil/secret.txt").
+  split; [reflexivity|]. split; [vm_compute; reflexivity|].
+  intros H. apply seg_prefixb_spec in H. vm_compute in H. discriminate.
+Qed.
+
+(** os.path.commonprefix compares characters, not components: it is not accepted, and it does let a sibling whose
+    name extends the root's name through. *)
+Theorem commonprefix_guard_refuted :
+  raise_sound guard_commonprefix = false /\
+  exists cwd root_arg path a,
+    is_abs cwd = true /\ resolve guard_commonprefix true cwd root_arg path = Ok a /\
+    ~ seg_prefix (segs (abspath cwd root_arg)) (segs a).
+Proof.
+  split; [reflexivity|].
   exists (s2l "/w"), (s2l "/t/root"), (s2l "../root_evil/secret.txt"), (s2l "/t/root_evil/secret.txt").
   split; [reflexivity|]. split; [vm_compute; reflexivity|].
   intros H. apply seg_prefixb_spec in H. vm_compute in H. discriminate.
